@@ -1,5 +1,5 @@
 (* Format.v — model of formatter/formatter.go (comments off) and of Value.String / Type.String. *)
-From GQL.model Require Import Base Lexer Ast.
+From GQL.model Require Import Base Lexer Ast Schema.
 Open Scope N_scope.
 
 Record fopts := mkFOpts { fo_indent : str; fo_builtin : bool; fo_nodesc : bool; fo_compact : bool }.
@@ -238,7 +238,8 @@ Section Fmt.
   Definition starts_dunder (n : str) : bool := match n with 95 :: 95 :: _ => true | _ => false end.
 
   Definition FormatFieldDefinition (x : fielddef) (f : fmt) : fmt :=
-    if negb (fo_builtin o) && starts_dunder x.(fd_name) then f else
+    (* the loader's implicit __schema/__type have no position in any source *)
+    if starts_dunder x.(fd_name) && (negb (fo_builtin o) || (x.(fd_pos).(p_line) =? 0)%Z) then f else
     let f1 := NoPadding (WriteWord x.(fd_name) (WriteDescription x.(fd_desc) f)) in
     let f2 := NeedPadding (WriteString [58] (NoPadding (FormatArgumentDefinitionList x.(fd_args) f1))) in
     let f3 := FormatType x.(fd_type) f2 in
@@ -319,6 +320,48 @@ Section Fmt.
     end.
 
   (* the built-in mark of a directive definition is that of its source *)
+  (* ---------------- a loaded schema (formatter.FormatSchema) ---------------- *)
+  Definition schema_roots (s : schema) : list (str * str * option str) :=
+    [(b "query", b "Query", s.(sc_query)); (b "mutation", b "Mutation", s.(sc_mutation));
+     (b "subscription", b "Subscription", s.(sc_subscription))].
+  (* the schema definition may be left out only if default-name inference reproduces the roots *)
+  Definition need_schema_block (s : schema) : bool :=
+    (existsb (fun r => let '(_, dn, cur) := r in
+               match cur with
+               | Some n => negb (str_eqb n dn)
+               | None => match lookup dn s.(sc_types) with Some _ => true | None => false end
+               end) (schema_roots s)
+     || (negb (d F_F5) && negb (nil_ s.(sc_desc))))
+    && existsb (fun r => match snd r with Some _ => true | None => false end) (schema_roots s).
+
+  Definition FormatSchemaHead (s : schema) : fmt :=
+    if need_schema_block s then
+      let g1 := IncrementIndent (WriteNewline (WriteString [123]
+                  (FormatDirectiveList s.(sc_schema_dirs)
+                    (WriteWord (b "schema") (if d F_F5 then fmt0 else WriteDescription s.(sc_desc) fmt0))))) in
+      let g2 := fold_left (fun acc r => let '(op, _, cur) := r in
+                  match cur with
+                  | Some n => WriteNewline (WriteWord n (NeedPadding (WriteString [58] (NoPadding (WriteWord op acc)))))
+                  | None => acc
+                  end) (schema_roots s) g1 in
+      WriteNewline (WriteString [125] (DecrementIndent g2))
+    else
+      match s.(sc_schema_dirs) with
+      | [] => fmt0
+      | ds => WriteNewline (FormatDirectiveList ds (WriteWord (b "schema") (WriteWord (b "extend") fmt0)))
+      end.
+
+  (* directive definitions and types by sorted name; a directive is built in when its source is (source 0) *)
+  Definition FormatSchema (s : schema) : str :=
+    let f1 := FormatSchemaHead s in
+    let f2 := fold_left (fun acc n => match lookup n s.(sc_dirs) with
+                                      | Some x => FormatDirectiveDefinition x (x.(dd_pos).(p_src) =? 0) acc
+                                      | None => acc end) (sort_strs (map fst s.(sc_dirs))) f1 in
+    let f3 := fold_left (fun acc n => match lookup n s.(sc_types) with
+                                      | Some x => FormatDefinition x false acc
+                                      | None => acc end) (sort_strs (map fst s.(sc_types))) f2 in
+    rev (out f3).
+
   Definition FormatSchemaDocument (s : sdoc) (dir_builtin : dirdef -> bool) : str :=
     let f1 := FormatSchemaDefinitionList s.(s_schema) false fmt0 in
     let f2 := FormatSchemaDefinitionList s.(s_schemaext) true f1 in
